@@ -17,8 +17,9 @@ IDENT_METHODS = ("_as_consistant_arrays",)
 
 
 class MethodNF:
-    def __init__(self, prog, positive=None, depth=6):
+    def __init__(self, prog, positive=None, depth=6, extra_call=None):
         self.prog = prog
+        self.extra_call = extra_call
         self.depth = depth
         self._d = 0
         self.positive = positive
@@ -99,6 +100,10 @@ class MethodNF:
 
         def call(fn, c, tr):
             f = c.func
+            if me.extra_call is not None:
+                r = me.extra_call(fn, c, tr, ci)
+                if r is not None:
+                    return r
             if isinstance(f, ast.Attribute) and isinstance(f.value, ast.Name) and f.value.id == "self":
                 args = [tr.tr(a) for a in c.args]
                 kw = {k.arg: tr.tr(k.value) for k in c.keywords}
@@ -140,6 +145,12 @@ class MethodNF:
             if isinstance(s, ast.If):
                 # only guard clauses that raise are tolerated
                 if all(isinstance(x, ast.Raise) for x in s.body) and not s.orelse:
+                    continue
+                # dtype normalisation of a parameter: `if not isinstance(x, float): x = x.astype(float)`
+                if not s.orelse and all(isinstance(x, ast.Assign) and isinstance(x.targets[0], ast.Name) and
+                                        isinstance(x.value, ast.Call) and isinstance(x.value.func, ast.Attribute) and
+                                        x.value.func.attr == "astype" and isinstance(x.value.func.value, ast.Name) and
+                                        x.value.func.value.id == x.targets[0].id for x in s.body):
                     continue
                 raise NFUnsupported("branch in %s" % fi.key)
             if isinstance(s, ast.Assign) and len(s.targets) == 1:
